@@ -326,10 +326,8 @@ func c14Class(canon, resp map[string]string) string {
 
 var _ = sb.DefaultDeadlineMs
 
-// exprsOutsideInterp visits every expression except those inside a string
-// interpolation (a double-quoted string nested in "#{...}" is a documented
-// limitation of stick's lexer, and the statement only speaks of strings
-// without interpolation).
+// exprsOutsideInterp visits every expression, including those inside a string
+// interpolation, except the literal text parts of interpolated strings.
 func exprsOutsideInterp(ns []*m.N, f func(e *m.E)) {
 	var walkE func(e *m.E)
 	walkE = func(e *m.E) {
@@ -338,6 +336,14 @@ func exprsOutsideInterp(ns []*m.N, f func(e *m.E)) {
 		}
 		f(e)
 		if e.K == "interp" {
+			// the str parts of an interpolation are its literal text, not
+			// string literals; the expressions between them are visited (a
+			// double-quoted string inside "#{ }" is fine since fix of the lexer)
+			for _, a := range e.A {
+				if a.K != "str" {
+					walkE(a)
+				}
+			}
 			return
 		}
 		for _, a := range e.A {
